@@ -156,10 +156,10 @@ def check_filter_rows(ctx):
             var = [n.id for n in ast.walk(lp.target) if isinstance(n, ast.Name)][0]
             rows = []
             for n in ast.walk(lp):
-                if isinstance(n, ast.Call) and call_name(n) == 'get_output_row_from_tables' and n.args:
-                    rows.append(U(n.args[0]))
-                if isinstance(n, ast.Assign) and isinstance(n.value, ast.List) and n.value.elts and isinstance(n.value.elts[0], ast.Subscript):
-                    rows.append(U(n.value.elts[0].value))
+                # every `<table parameter>[<candidate variable>]`: a row selected by the candidate id
+                if isinstance(n, ast.Subscript) and isinstance(n.slice, ast.Name) and n.slice.id == var \
+                        and isinstance(n.value, ast.Name) and n.value.id in f.params:
+                    rows.append(U(n))
             ok = len(tables) == 1 and rows and all(r == '%s[%s]' % (tables[0], var) for r in rows)
             ctx.check('R-WIRE/candidate-row', f, 'loop over %s' % U(lp.iter)[:40], ok,
                       'ids delivered by the index over %s select rows %s' % (tables, sorted(set(rows))), sink,
